@@ -421,6 +421,9 @@ def make_world(repo=None):
     def m_conf(it):
         m = PModule('spil.conf')
         for k, v in snap['conf'].items(): m.ns[k] = conv(v)
+        # functions of the data configuration module (interpreted from its source on demand)
+        for fn in ('get_data_json_path', 'get_getter_for', 'get_finder_for', 'get_writer_for'):
+            m.ns[fn] = Lazy('spil_data_conf', fn)
         return m
     sp['spil.conf'] = m_conf
     def m_spil(it):
@@ -610,5 +613,10 @@ def install_resolva(it):
 
 def new_interp(st, world):
     it = Interp(st, world)
+    conf_dir = world.snap['conf'].get('default_sid_conf_path')
+    if conf_dir and conf_dir not in world.search_paths: world.search_paths.append(conf_dir)
     install_resolva(it)
     return it
+def install_fs(it):
+    from . import fsmodel
+    return fsmodel.install(it, PathModel, None)
